@@ -409,7 +409,8 @@ def derivative(form, coefficient, argument=None, coefficient_derivatives=None):
         if not len(form.arguments()) and isinstance(coefficient, SpatialCoordinate):
             return ZeroBaseForm(())
 
-        if len(left.arguments()) == 1:
+        # (`left` can also be a Coefficient, which has no `arguments()`)
+        if isinstance(left, BaseForm) and len(left.arguments()) == 1:
             dleft = derivative(left, coefficient, argument, coefficient_derivatives)
             dright = derivative(right, coefficient, argument, coefficient_derivatives)
             # Leibniz formula
